@@ -26,17 +26,21 @@ def resolve(ex, st, entries, binds) -> FrameSpec:
     fs = FrameSpec()
     for e in entries:
         if e.startswith("$obj:"):
-            v = T.opt_inner(ex.spec_eval(st, e[5:], binds))
+            v0 = ex.spec_eval(st, e[5:], binds)
+            cond = z3.Not(v0.terms[0]) if isinstance(v0.ty, T.Opt) else z3.BoolVal(True)   # None: nothing to write
+            v = T.opt_inner(v0)
             if not isinstance(v.ty, (T.List, T.Dict)):
                 raise Unsupported(f"modifies {e}: not a container")
             for k in v.ty.all_keys():
-                fs.objs.setdefault(k, []).append(v.t)
+                fs.objs.setdefault(k, []).append((v.t, cond))
             continue
         if "@" in e[1:] and not e.startswith("$"):
             head, expr = e[0] + e[1:].split("@", 1)[0], e[1:].split("@", 1)[1]
-            o = T.opt_inner(ex.spec_eval(st, expr, binds))
+            o0 = ex.spec_eval(st, expr, binds)
+            cond = z3.Not(o0.terms[0]) if isinstance(o0.ty, T.Opt) else z3.BoolVal(True)
+            o = T.opt_inner(o0)
             for k in expand_keys([head]):
-                fs.objs.setdefault(k, []).append(o.t)
+                fs.objs.setdefault(k, []).append((o.t, cond))
             continue
         fs.whole.update(expand_keys([e]))
     return fs
@@ -57,8 +61,10 @@ def havoc(ex, st, fs: FrameSpec):
         if k in fs.whole:
             continue
         arr = _key_array(ex, st, k)
-        for o in objs:
+        for o, cond in objs:
             row = z3.Const(T.fresh_name("hv.row"), arr.sort().range())
+            if not z3.is_true(cond):
+                row = z3.If(cond, row, z3.Select(arr, o))
             arr = z3.Store(arr, o, row)
         st.heap[k] = arr
         ex.bump(st)
@@ -88,7 +94,7 @@ def check(ex, entry_state, outs, c, entry_env):
                 continue
             q = z3.Const("fr_o", Obj)
             allowed = fs.objs.get(k, [])
-            cond = z3.And(PRE_ALLOC(q), *[q != a for a in allowed])
+            cond = z3.And(PRE_ALLOC(q), *[z3.Or(q != a, z3.Not(c0)) for a, c0 in allowed])
             goal = z3.ForAll([q], z3.Implies(cond, z3.Select(term, q) == z3.Select(init, q)))
             ex.oblige(o.st, "frame", f"writes:{k.split('#')[0]}", goal, None,
                       f"{k} is written outside the contract's modifies clause")
